@@ -71,7 +71,7 @@ def _fold(chk, state, b, totals):
 
 
 def run(chk, extra_corpus=None):
-    n = 350 if chk.tier == "quick" else 2500
+    n = 350 if chk.tier == "quick" else 100     # thorough: 6 batches of 100 plans with power-set fault sets (~60k runs each)
     chk.coverage["rule"] = RULE
     chk.assumptions += [
         "Coq 8.16.1 kernel (coqc, full .vo build); vm_compute only in Examples and refutation witnesses",
@@ -84,7 +84,16 @@ def run(chk, extra_corpus=None):
         "the renderer is the shared C02 model. Abstracted: xxhash of a representation = its bytes; MergeValues compares numbers by raw token; "
         "Parallel children run in list order (C08 owns the schedules); tracing, authorization, rate limiting, tainted objects (ValidateRequiredExternalFields), "
         "MultiEntityFetch, pass-through error mode and single flight (each generated fetch has its own operation text) are outside the model",
-        "C02.Model.resolve is the renderer; valid_json cites the C02 development",
+        "C02.Model.resolve is the renderer; c07_valid_json cites C02.Properties.resolve_refines_complete",
+        "theorem hypotheses (all evaluated per generated plan by the driver, see distribution): fplan_wf (post-processing paths by kind, root single "
+        "fetches, flat non-null representation variables under an on-type condition, no type-conditioned path elements, dependencies earlier in the tree), "
+        "consistent (the fault-free run never overwrites or clashes), loud fault kinds; c07_unaffected_equal additionally: subgraph answers without duplicate "
+        "object keys, an affected set closed under dependants, a faulty run that does not fail as a whole",
+    ]
+    chk.notes += [
+        "findings (Go replays in corpus/C07/cases.tsv; keys in KNOWN_FINDINGS.txt): nan-accepted, status-ignored-with-data, entity-count-ignored, "
+        "nullable-requires-null-sent; not reachable by the generator (single provider per field) but proved and replayed: "
+        "c07_response_merge_order_refuted = `harness/bin/c07 probe-null-object x x`",
     ]
     chk.proof_side(extra_dirs=["C02"])
     ok, log = vlib.build_model("C07")
@@ -129,10 +138,27 @@ def run(chk, extra_corpus=None):
             if any(kk is None for (kk, _, _) in st.get("specfail", [])):
                 break
 
+    if chk.tier == "thorough":
+        for k in range(1, 6):
+            bb = _batch(chk, "%s gen -seed %d -n %d -tier thorough -out {out}" % (exe, chk.seed * 100 + k, n), model, "gen%d" % k, timeout=3000)
+            if bb:
+                _fold(chk, state, bb, totals)
+                os.remove(os.path.join(chk.work, "gen%d.cases" % k))
+
     vlib.conclude_differential(chk, state, more)
     chk.coverage["evaluations"] = totals["runs"]
     chk.coverage["distinct_nontrivial"] = totals["nt"]
     chk.coverage["samples"] = samples
+    # end-to-end half (real planner + ExecutionEngine over the fedlab), owned by tools/props/c07e.py
+    try:
+        import props.c07e as c07e
+    except ImportError:
+        c07e = None
+    if c07e is not None:
+        try:
+            c07e.run_part(chk)
+        except Exception as ex:  # noqa: BLE001
+            chk.add_violation("tie:C07/e2e-part", "tools/props/c07e.py failed: %r" % (ex,), found_input=False)
 
 
 def replay(chk, path):
